@@ -10,13 +10,13 @@ pub proof fn lemma_sig_bytes()
 }
 
 //@ fn canonical.rs canonicalize_query_to_string
-//@ props C08 C10 C18 C02
+//@ props C08 C10 C18 C02 C17
 //@ ret r
 //@ replace 1 `key != X_AMZ_SIGNATURE` => `string_ne_str(key, X_AMZ_SIGNATURE)`
 //@ replace 1 `results.sort_unstable();` => `sort_unstable_pairs(&mut results);`
 //@ spec
     ensures
-        is_canon_query(qmap(query_parameters@), str_bytes(r@)), //# C10 C18 C02 name=canonical_query_of_the_abstract_map
+        is_canon_query(qmap(query_parameters@), str_bytes(r@)), //# C10 C18 C02 C01 name=canonical_query_of_the_abstract_map
 //@ bodystart
     broadcast use axiom_string_key_model, vstd::seq_lib::group_to_multiset_ensures;
     proof { lemma_sig_bytes(); }
